@@ -514,8 +514,9 @@ impl Axecutor {
 
         // Also make sure there's no overlapping area already defined, including code region
         for (i, area) in self.state.memory.iter().enumerate() {
-            if start_addr == area.start {
-                // This is the area we resize, it cannot collide with itself
+            if start_addr == area.start && area_to_resize.is_none() {
+                // This is the area we resize, it cannot collide with itself. A zero-length area may share
+                // its start with another area: only the first match is skipped, any other one is checked below
                 area_to_resize = Some(i);
                 continue;
             }
